@@ -349,6 +349,50 @@ def small_arrays(col, kind, st):
             check_chunk(col, kind, elems, st, (1, 0, 0), premodel=True)
 
 
+def series_history(col, kind, st):
+    """one GeoSeries object read, changed in place (sort_index / drop / dropna / del / setitem-free reindexing), read again:
+    the measures always describe the elements the series holds NOW"""
+    from spatialpandas import GeoSeries
+    fam = [e for e in family(kind, False, False) if e is not None][:40:7] + [None]
+    if len(fam) < 4:
+        return
+    arr = L.make_array(kind, fam, st)
+    labels = [f"r{i}" for i in range(len(fam))]
+    case = {"kind": kind, "subtype": st, "T": [1, 0, 0], "elems": [jelem(e) for e in fam], "history": "series_inplace"}
+
+    def ref(order):
+        a = arr.take(order)
+        return np.asarray(a.area, dtype=float), np.asarray(a.length, dtype=float)
+
+    def same(x, y):
+        x, y = np.asarray(x, dtype=float), np.asarray(y, dtype=float)
+        return x.shape == y.shape and bool(np.all((x == y) | (np.isnan(x) & np.isnan(y))))
+    n = len(fam)
+    steps = [("sort_index(descending)", lambda s: s.sort_index(ascending=False, inplace=True), list(range(n))[::-1]),
+             ("drop(first label)", lambda s: s.drop(s.index[0], inplace=True), list(range(n))[::-1][1:]),
+             ("dropna", lambda s: s.dropna(inplace=True), [i for i in list(range(n))[::-1][1:] if fam[i] is not None]),
+             ("del s[label]", lambda s: s.__delitem__(s.index[-1]), [i for i in list(range(n))[::-1][1:] if fam[i] is not None][:-1])]
+    try:
+        s = GeoSeries(arr, index=labels)
+        a, ln = s.area, s.length                 # read first
+        col.count("evaluations")
+        ra, rl = ref(list(range(n)))
+        if not same(a.values, ra) or not same(ln.values, rl):
+            col.violation(f"{kind}.series_history", dict(case, step="initial"), "GeoSeries area/length differ from the array's")
+        for name, fn, order in steps:
+            fn(s)
+            col.count("evaluations")
+            ra, rl = ref(order)
+            a, ln = s.area, s.length
+            if list(a.index) != [labels[i] for i in order] or not same(a.values, ra) or not same(ln.values, rl):
+                col.violation(f"{kind}.series_history", dict(case, step=name),
+                              f"after {name} (in place): area {a.values.tolist()} / length {ln.values.tolist()} with index {list(a.index)}; "
+                              f"the series now holds rows {[labels[i] for i in order]} with area {ra.tolist()} length {rl.tolist()}")
+                break
+    except Exception as ex:
+        col.violation(f"{kind}.series_history.raises", case, f"{type(ex).__name__}: {str(ex)[:200]}")
+
+
 def _maxabs(e):
     if isinstance(e, (tuple, list)):
         return max([_maxabs(v) for v in e] or [0])
@@ -396,6 +440,7 @@ def run(ctx):
         kind, st, fam, Tfix = units[j]
         if isinstance(fam, str):
             small_arrays(col, kind, st)
+            series_history(col, kind, st)
             return
         T = Tfix or L.transform_for(st, ctx.seed, salt=j)
         check_chunk(col, kind, fam, st, T, j)
@@ -416,6 +461,9 @@ def run(ctx):
 
 def replay(ctx, case):
     col = core.Collector()
+    if case.get("history") == "series_inplace":
+        series_history(col, case["kind"], case["subtype"])
+        return col.violations
     model = [telem(e) for e in case["elems"]]
     check_chunk(col, case["kind"], model, case["subtype"], tuple(case["T"]), premodel=True)
     return col.violations
